@@ -652,6 +652,7 @@ func (fr *Frame) loopHead(li *loopInfo, st *State, cond string) *State {
 				continue
 			}
 			ns.heap[k] = vc.fresh(k, srt)
+			vc.heapRange(k, ns.heap[k], false)
 		}
 		fr.havocAllMark(ns)
 	} else {
@@ -662,6 +663,7 @@ func (fr *Frame) loopHead(li *loopInfo, st *State, cond string) *State {
 			for pfx := range mods.keys {
 				if k == pfx || strings.HasPrefix(k, pfx+".") {
 					ns.heap[k] = vc.fresh(k, srt)
+					vc.heapRange(k, ns.heap[k], false)
 					break
 				}
 			}
